@@ -16,7 +16,7 @@ import json
 import os
 
 import vlib
-from checks.c12 import (PRECEDENCE, Tally, bag, case_queries, case_sql, corpus_lines, field, finish_reports,
+from checks.c12 import (PRECEDENCE, Tally, attributed_sigs, run_counterfactuals, bag, case_queries, case_sql, corpus_lines, field, finish_reports,
                         judge_scan, model_rows, out_rows, parse_sexp, run_cases, vkey)
 
 THEOREMS = [
@@ -161,19 +161,14 @@ def judge_case13(r, T):
             T.corr.append(("spec:scan", "case %d: storage scan %s: model spec differs from the oracle" % (cid, sreq), {"case": r["line"], "scan": sreq}))
         if got != want:
             T.ivo["disagree"] += 1
-            sig = None
-            if agree:
-                for p in PRECEDENCE:
-                    if p in tags:
-                        sig = p
-                        break
-            if sig is None:
-                sig = "unexplained:scan"
-            else:
-                T.explained[sig] += 1
-            T.findings.append((sig, "Transaction::scan(cols=%s, filter=%s) returns %s, unfiltered scan + filter gives %s (case %d, %d row-sets)" % (
-                scols, rng, "a panic" if got is None else "%d rows" % len(got), "%d rows" % len(want), cid, nrs),
-                {"case": r["line"], "scan": sreq, "impl": si, "want": want, "tags": tags}))
+            sigs = attributed_sigs(sm, agree) or ["unexplained:scan"]
+            what = "Transaction::scan(cols=%s, filter=%s) returns %s, unfiltered scan + filter gives %s (case %d, %d row-sets)" % (
+                scols, rng, "a panic" if got is None else "%d rows" % len(got), "%d rows" % len(want), cid, nrs)
+            for sg in sigs:
+                if not sg.startswith("unexplained"):
+                    T.explained[sg] += 1
+                T.findings.append((sg, what + ("" if len(sigs) == 1 else " [jointly: %s]" % " + ".join(sigs)),
+                                   {"case": r["line"], "scan": sreq, "impl": si, "want": want, "tags": tags, "attributed": sigs}))
         elif got:
             T.nontrivial.add((cid, str(sreq)))
 
@@ -236,19 +231,15 @@ def judge_query13(r, T, qid, g, nrs):
         got = None if impl is None else bag(tuple(x) for x in impl)
         if got != truth:
             T.ivo["disagree"] += 1
-            sig = None
-            if agree and which == "on":
-                for p in PRECEDENCE:
-                    if p in tags:
-                        sig = p
-                        break
-            if sig is None:
-                sig = "unexplained:" + which
-            else:
-                T.explained[sig] += 1
             n_got = -1 if got is None else sum(got.values())
-            T.findings.append((sig, "%s returns %s rows, full scan + predicate gives %d (case %d, %d row-sets)" % (
-                sql, "no (statement failed)" if got is None else n_got, sum(truth.values()), cid, nrs), rep))
+            what = "%s returns %s rows, full scan + predicate gives %d (case %d, %d row-sets)" % (
+                sql, "no (statement failed)" if got is None else n_got, sum(truth.values()), cid, nrs)
+            off_ok = off is not None and bag(tuple(x) for x in off) == truth
+            sigs = (attributed_sigs(a, agree, off_ok) if which == "on" else None) or ["unexplained:" + which]
+            for sg in sigs:
+                if not sg.startswith("unexplained"):
+                    T.explained[sg] += 1
+                T.findings.append((sg, what + ("" if len(sigs) == 1 else " [jointly: %s]" % " + ".join(sigs)), dict(rep, attributed=sigs)))
         elif impl and which == "on" and pushed == "true":
             T.nontrivial.add((cid, sql))
     # optimizer on vs off directly
@@ -285,8 +276,10 @@ def run(ck):
             ck.report("thm:" + name, "theorem %s no longer checks (%s); failing input: %s" % (name, st.get("status"), what), replay=rep, found_input=True)
         else:
             ck.report("thm:" + name, "theorem %s no longer checks: %s" % (name, st), replay={"theorem": name, "status": st}, found_input=False)
+    cfs = run_counterfactuals(ck, T, "c13", "drv_c13", judge_case13)
     finish_reports(ck, T, "c13")
     ck.coverage.update({
+        "counterfactuals": cfs,
         "evaluations": T.mvi["compared"], "distinct_nontrivial": len(T.nontrivial),
         "rule": "distinct (case, SQL text) whose key range was pushed into the scan and whose result is non-empty and equals the oracle, plus distinct non-empty correct storage-level range scans",
         "samples": T.samples[:8], "model_vs_impl": T.mvi, "impl_vs_oracle": T.ivo, "model_vs_oracle": T.mvo,
